@@ -2,6 +2,8 @@
 use crate::{hex, unhex};
 use dolby_vision::av1::convert_regular_rpu_to_av1_payload;
 use dolby_vision::rpu::dovi_rpu::DoviRpu;
+use dolby_vision::rpu::extension_metadata::blocks::ExtMetadataBlock;
+use dolby_vision::rpu::ConversionMode;
 
 /// CRC-32/MPEG-2, bitwise, independent of the `crc` crate
 pub fn crc32_mpeg2(data: &[u8]) -> u32 {
@@ -100,6 +102,113 @@ pub fn dispatch(t: &[&str]) -> String {
                 None => "err".into(),
             }
         }
+        // seq <kind> <hex> <op>... : parse, apply the operations, report the final state and its encoding
+        "seq" => seq(t),
         _ => panic!("unknown op {}", t[0]),
+    }
+}
+
+fn block_from_spec(spec: &[&str]) -> ExtMetadataBlock {
+    // <level>:<len>:<name=val,...>
+    let level: u32 = spec[0].parse().unwrap();
+    let mut fields: Vec<String> = Vec::new();
+    for kv in spec[2].split(',') {
+        if kv.is_empty() {
+            continue;
+        }
+        let (k, v) = kv.split_once('=').unwrap();
+        if k == "reference_mode_flag" {
+            fields.push(format!("\"{}\":{}", k, if v == "1" { "true" } else { "false" }));
+        } else {
+            fields.push(format!("\"{}\":{}", k, v));
+        }
+    }
+    if matches!(level, 8 | 9 | 10) {
+        fields.push(format!("\"length\":{}", spec[1]));
+    }
+    let js = format!("{{\"Level{}\":{{{}}}}}", level, fields.join(","));
+    serde_json::from_str::<ExtMetadataBlock>(&js).unwrap_or_else(|e| panic!("block json {js}: {e}"))
+}
+
+fn mode_of_idx(i: u8) -> ConversionMode {
+    match i {
+        0 => ConversionMode::Lossless,
+        1 => ConversionMode::ToMel,
+        2 => ConversionMode::To81,
+        3 => ConversionMode::To84,
+        4 => ConversionMode::To81MappingPreserved,
+        _ => panic!("bad mode index"),
+    }
+}
+
+pub fn apply_op(rpu: &mut DoviRpu, op: &str) -> anyhow::Result<()> {
+    let parts: Vec<&str> = op.split(':').collect();
+    match parts[0] {
+        "add" | "repl" | "repllvl" => {
+            let b = block_from_spec(&parts[1..]);
+            rpu.modified = true;
+            if let Some(dm) = rpu.vdr_dm_data.as_mut() {
+                match parts[0] {
+                    "add" => dm.add_metadata_block(b)?,
+                    "repl" => dm.replace_metadata_block(b)?,
+                    _ => dm.replace_metadata_level(b)?,
+                }
+            }
+            Ok(())
+        }
+        "rm" => {
+            rpu.modified = true;
+            if let Some(dm) = rpu.vdr_dm_data.as_mut() {
+                dm.remove_metadata_level(parts[1].parse().unwrap());
+            }
+            Ok(())
+        }
+        "crop" => rpu.crop(),
+        "offsets" => {
+            let v: Vec<u16> = parts[1].split(',').map(|x| x.parse().unwrap()).collect();
+            rpu.set_active_area_offsets(v[0], v[1], v[2], v[3])
+        }
+        "rmmap" => {
+            rpu.remove_mapping();
+            Ok(())
+        }
+        "rmcmv40" => rpu.remove_cmv40_extension_metadata(),
+        "conv" => rpu.convert_with_mode(mode_of_idx(parts[1].parse().unwrap())),
+        "convu8" => rpu.convert_with_mode(parts[1].parse::<u8>().unwrap()),
+        "copy" => {
+            let src = DoviRpu::parse_rpu(&unhex(parts[1]))?;
+            let levels: Vec<u8> = parts[2].split(',').filter(|x| !x.is_empty()).map(|x| x.parse().unwrap()).collect();
+            rpu.replace_levels_from_rpu(&src, &levels)
+        }
+        _ => panic!("unknown seq op {}", parts[0]),
+    }
+}
+
+fn seq(t: &[&str]) -> String {
+    let mut rpu = match crate::parse_kind(t[1], &unhex(t[2])) {
+        Ok(r) => r,
+        Err(_) => return "err parse".into(),
+    };
+    for (i, op) in t[3..].iter().enumerate() {
+        if apply_op(&mut rpu, op).is_err() {
+            return format!("err {}", i);
+        }
+    }
+    let js = serde_json::to_string(&rpu).unwrap();
+    match rpu.write_rpu() {
+        Ok(o) => {
+            // decode what was written: the tool's own parser reads back the same values
+            let mut pre = vec![0u8, 0, 0, 1];
+            pre.extend_from_slice(&o);
+            let back = match DoviRpu::parse_rpu(&pre) {
+                Ok(r2) => serde_json::to_string(&r2).unwrap(),
+                Err(e) => format!(
+                    "\"reparse-error:{}\"",
+                    e.to_string().chars().map(|c| if c.is_whitespace() || c == '"' { '_' } else { c }).collect::<String>()
+                ),
+            };
+            format!("ok {} {} {}", js, hex(&o), back)
+        }
+        Err(_) => format!("ok {} errw -", js),
     }
 }
